@@ -178,7 +178,7 @@ def universe(tier, seed, shard, nshards):
             r, c = len(s1), len(s2)
             if max(r, c) > 3 and (s1 > s2):
                 continue   # thorough: long pairs in one order only (the swapped order is C10's job)
-            psis = [None, 1, (0, 1, 0, 1), (1, 0, 1, 0), (0, 0, 0, c), (0, r, 0, 0), (1, 1, 0, 0)]
+            psis = [None, 1, (0, 1, 0, 1), (1, 0, 1, 0), (0, 0, 0, c), (0, r, 0, 0), (1, 1, 0, 0), (1, 0, 0, 0), (0, 0, 1, 0)]
             for w in (None, 1, 2):
                 for pen in (None, 0.5):
                     for ms in (None, 1.2):
@@ -199,7 +199,7 @@ def universe(tier, seed, shard, nshards):
                 idx += 1
                 if idx % nshards != shard:
                     continue
-                for psi in (None, 1, 2, (0, 1, 0, 1), (1, 0, 1, 0), (0, 0, 0, c), (0, r, 0, 0), (0, 2, 0, 0), (0, 0, 0, 2)):
+                for psi in (None, 1, 2, (0, 1, 0, 1), (1, 0, 1, 0), (0, 0, 0, c), (0, r, 0, 0), (0, 2, 0, 0), (0, 0, 0, 2), (2, 0, 0, 0), (0, 0, 2, 0), (r, 0, 0, 0), (0, 0, c, 0)):
                     if psi is not None:
                         p = oracles.norm_psi(psi)
                         if oracles.psi_degenerate(p, r, c) or max(p[:2]) > r or max(p[2:]) > c:
@@ -231,8 +231,8 @@ def run(ctx):
              'warping_paths keep_int_repr, compact, distance_matrix); non-trivial = some threshold or the Euclidean bound lies below the '
              'accumulated optimum of an in-band cell (so pruning has something to cut)',
         bounds={'alphabet': list(univ.alphabet(univ.BASE3, ctx.seed)),
-                'U1': 'all pairs len 1..%d x window{None,1,2} x penalty{None,.5} x max_step{None,1.2} x inner x 7 psi forms' % (4 if ctx.thorough else 3),
-                'U3': 'all shapes up to %d x every window x 9 psi forms x catalogue values' % (6 if ctx.thorough else 5),
+                'U1': 'all pairs len 1..%d x window{None,1,2} x penalty{None,.5} x max_step{None,1.2} x inner x 9 psi forms (symmetric and one-sided, begin and end)' % (4 if ctx.thorough else 3),
+                'U3': 'all shapes up to %d x every window x 13 psi forms x catalogue values' % (6 if ctx.thorough else 5),
                 'thresholds': 'one in every gap (> 1e-6 relative) between consecutive distinct values of {cell optima, distance, Euclidean bound}, one below, one above',
                 'use_pruning': 'only where C03 calls the bound valid: no max_step, and no penalty or equal lengths'},
         assumptions=['oracle is the same routine without max_dist/use_pruning (its own correctness is C01/C02/C04)',
